@@ -128,7 +128,10 @@ def confirm(pid, h, what, scratches, keep=False, features=()):
     t0 = time.time()
     cands, err = extract_counterexample(scratch, h, list(h.cfgs) + list(features), what)
     if cands is None:
-        return {"reproduced": False, "detail": "concrete playback produced no values: " + err[-400:]}
+        # Kani sometimes generates no playback test although a check failed (seen when the failure
+        # does not depend on the symbolic inputs): the all-zero input is then tried natively -- it
+        # only counts if the very same assertion fails there
+        cands = [b""]
     hexs, r = "", None
     for data in cands[:3]:
         hexs = data.hex()
